@@ -43,8 +43,8 @@ class CallMixin(object):
 
     def ev_Call(self, n, st):
         # keyword / positional argument evaluation
-        if any(isinstance(a, ast.Starred) for a in n.args) or any(k.arg is None for k in n.keywords):
-            raise Unsupported('*args / **kwargs call at line %d' % n.lineno)
+        if any(isinstance(a, ast.Starred) for a in n.args) or sum(1 for k in n.keywords if k.arg is None) > 1:
+            raise Unsupported('*args / several **kwargs call at line %d' % n.lineno)
         # super( C, self ).m( ... )
         if isinstance(n.func, ast.Attribute) and isinstance(n.func.value, ast.Call) and \
                 isinstance(n.func.value.func, ast.Name) and n.func.value.func.id == 'super':
@@ -60,9 +60,27 @@ class CallMixin(object):
                     yield s2, vs
                     continue
                 args = vs[:len(n.args)]
-                kw = dict((k.arg, v) for k, v in zip(n.keywords, vs[len(n.args):]))
+                kw = dict((k.arg if k.arg is not None else '**', v) for k, v in zip(n.keywords, vs[len(n.args):]))
                 for s3, ff in self.split(s2, f):
+                    if '**' in kw and not self.accepts_starstar(ff):
+                        raise Unsupported('**kwargs call of a function without a sidecar callee model at line %d' % n.lineno)
                     yield from self.call(ff, args, kw, s3, n)
+
+    def accepts_starstar(self, f):
+        """`f(**mapping)`: only for callees modelled by a sidecar callable (it receives the mapping value under the key '**')"""
+        if not isinstance(f, FuncV) or callable(f.impl):
+            return False
+        impl = f.impl
+        if impl[0] == 'method':
+            names = ('%s.%s' % (impl[2].name, impl[3].name), impl[3].name)
+        elif impl[0] == 'classfn':
+            names = ('%s.%s' % (impl[1].name, impl[3].name), '%s.%s' % (impl[2].name, impl[3].name), impl[3].name)
+        elif impl[0] == 'repofn':
+            names = (impl[2].name,)
+        else:
+            return False
+        c = next((self.spec.callees[k] for k in names if k in self.spec.callees), None)
+        return c is not None and not hasattr(c, 'params')
 
     def call(self, f, args, kw, st, n):
         line = getattr(n, 'lineno', None)
@@ -458,6 +476,10 @@ class CallMixin(object):
     # ---------------------------------------------------------------- module functions
     def module_function(self, mod, name, args, kw, st, n):
         line = getattr(n, 'lineno', None)
+        model = self.spec.callees.get('%s.%s' % (mod, name))
+        if model is not None and callable(model) and not hasattr(model, 'params'):
+            yield from model(self, None, args, kw, st, n)          # sidecar model of a function of another module
+            return
         if mod == 'struct' and name == 'pack':
             fmt = args[0]
             if not (isinstance(fmt, ConstV) and fmt.py in STRUCT_FMT) or len(args) != 2:
